@@ -424,7 +424,7 @@ def scalar_op_line(rng, c, inplace=None, r='t1'):
         else:
             k = rng.choice([0, 1, -1, 2, 3, -5, 12])
         return "sop %s op=%s k=%d ktype=int%s" % (c.name, op, k, tail)
-    if c.is_flt and c.sentinel in ('0', '1^1', '-9999') and rng.random() < 0.35:
+    if c.is_flt and c.sentinel in ('0', '1^1', '-9999') and rng.random() < 0.5:
         # aim at the sentinel: some valid pixels become invalid through arithmetic
         if c.sentinel == '0' and rng.random() < 0.3:
             return "sop %s op=mul k=0 ktype=%s%s" % (c.name, rng.choice(['flt', 'int']), tail)
